@@ -17,7 +17,7 @@ EXPLANATION = (
     "violation. (R12.3) the unique-parent bookkeeping used for list detection forgets an existing parent iff it differs "
     "from the new (subject, predicate) in any component. (R12.4) the `@type` key is chosen only under `p == rdf:type && "
     "obj.is_iri() && !use_rdf_type`. (R12.5) a quad of a named graph always registers its subject under the graph node's "
-    "@graph entry. (R12.7) jsonify leaves a list node out only in the graph of the list's parent (the set of list nodes is keyed by label, nodes by (graph, label)). (R12.6) native JSON numbers / booleans are produced only under use_native_types(). NOT decided: list detection/suppression, named-graph placement, and every round-trip equality.")
+    "@graph entry. (R12.8) is_list_node / is_compound_literal inspect a property only when it has exactly one value. (R12.7) jsonify leaves a list node out only in the graph of the list's parent (the set of list nodes is keyed by label, nodes by (graph, label)). (R12.6) native JSON numbers / booleans are produced only under use_native_types(). NOT decided: list detection/suppression, named-graph placement, and every round-trip equality.")
 
 TABLE = {
     # --- node indexes
@@ -364,8 +364,57 @@ def list_suppression_rule(ck, facts):
         ck.ok("R12.7", "jsonify: a list node is left out only when its graph is the graph of the list's parent")
 
 
+def singleton_rule(ck, facts):
+    """R12.8: a node is folded into a `@list` (or a compound literal) only if each of the properties inspected has *exactly
+    one* value: in is_list_node / is_compound_literal every closure that inspects a value vector tests `len() == 1`, and
+    whatever else it looks at (eq_node, is_node, is_literal ...) is evaluated only on the true edge of that test.  (`any(..)`
+    over the values of `@type` would suppress a cell that also carries another type, and lose that statement.)"""
+    n = 0
+    for name in ("is_list_node", "is_compound_literal"):
+        fns = facts.find_fns(crate="sophia_jsonld", name_re=r"^serializer::engine::%s$" % name)
+        if len(fns) != 1:
+            ck.bad("R12.8", "R12.8@%s#anchor" % name, "anchor-missing: %s (%d)" % (name, len(fns)))
+            continue
+        clos = facts.with_closures(fns[0])[1:]
+        for c in clos:
+            n += 1
+            lens = []
+            for bi in range(len(c.blocks)):
+                tt = c.blocks[bi]["t"]
+                if tt["t"] == "switch" and tt.get("ty") == "bool" and tt["on"][0] != "k":
+                    sd = c.single_def(tt["on"][1][0])
+                    if sd is not None and sd[2][0] == "bin" and sd[2][1] == "Eq":
+                        a, b = c.origin(sd[2][2]), c.origin(sd[2][3])
+                        one = [x for x in (a, b) if x[0] == "const" and x[1].get("v") == "1"]
+                        ln = [x for x in (a, b) if x[0] == "call" and call_name_matches(x[1], r"Vec::<T, A>::len$|slice::<impl \[T\]>::len$")]
+                        if one and ln:
+                            vals = dict((v, tb) for v, tb in tt["vals"])
+                            true_t = tt["else"] if "0" in vals else vals.get("1")
+                            lens.append((bi, true_t))
+            others = [(bi, t) for bi, t in c.calls() if not call_name_matches(t, r"::len$")]
+            direct = False
+            for bk in c.blocks:
+                for st in bk["s"]:
+                    if st[0] == "=" and st[1] == [0] and st[2][0] == "bin" and st[2][1] == "Eq":
+                        a, b = c.origin(st[2][2]), c.origin(st[2][3])
+                        if any(x[0] == "const" and x[1].get("v") == "1" for x in (a, b)) and \
+                                any(x[0] == "call" and call_name_matches(x[1], r"Vec::<T, A>::len$|slice::<impl \[T\]>::len$") for x in (a, b)):
+                            direct = True
+            if direct and not others:
+                ck.ok("R12.8", "%s: the verdict is `len() == 1` itself (%s)" % (name, c.name.split("::")[-1]))
+                continue
+            if not lens:
+                ck.bad("R12.8", "R12.8@%s#no-singleton-test" % name, "a value vector is inspected in %s without requiring exactly one value" % name, c.loc)
+            elif any(not any(edge_dominates(c, e, bi) for e in lens) for bi, _ in others):
+                ck.bad("R12.8", "R12.8@%s#test-not-guarding" % name, "in %s a value is inspected outside the `len() == 1` branch" % name, c.loc)
+            else:
+                ck.ok("R12.8", "%s: values inspected only when there is exactly one (%s)" % (name, c.name.split("::")[-1]))
+    ck.floor("R12.8", "value-vector closures in is_list_node / is_compound_literal", n, 6)
+
+
 def run(ck, facts, tier):
     facts.require_crates(["sophia_jsonld"])
+    singleton_rule(ck, facts)
     native_types_rule(ck, facts)
     list_suppression_rule(ck, facts)
     filter_rule(ck, facts)
